@@ -457,7 +457,7 @@ let sx_pgmap (x : sx) : (pgkey * n) list =
 
 (* canonical form of a binding map: entries in key order; of a list of maps or matches: sorted by text *)
 let pgmap_sx (m : (pgkey * n) list) : sx =
-  let l = List.sort (fun (a, _) (b, _) -> match pgkey_cmp a b with Lt -> -1 | Eq -> 0 | Gt -> 1) m in
+  let l = List.sort (fun (a, _) (b, _) -> compare (show (pgkey_sx a)) (show (pgkey_sx b))) m in
   L (List.map (fun (k, v) -> L [pgkey_sx k; n_sx v]) l)
 let sorted_sx (l : sx list) : sx =
   let strs = List.sort compare (List.map (fun x -> (show x, x)) l) in
@@ -473,7 +473,7 @@ let cmd_pg (x : sx) : sx =
       (* not-equal constraints: the arguments after the first are a set (hash order in the implementation) *)
       let canon (c : (pgkey, pgpred) constraint0) = match c.cpred, c.cargs with
         | IsNotEqual _, k :: others ->
-            { c with cargs = k :: List.sort (fun a b -> match pgkey_cmp a b with Lt -> -1 | Eq -> 0 | Gt -> 1) others }
+            { c with cargs = k :: List.sort (fun a b -> compare (show (pgkey_sx a)) (show (pgkey_sx b))) others }
         | _ -> c in
       res_sx (fun cs -> L (List.map (fun c -> pgcons_sx (canon c)) cs)) (pg_constraint_vec (sx_pghost g) (sx_n root))
   | L [A "pg-cover"; g; root] ->
